@@ -608,7 +608,12 @@ def main():
             if time.time() - t0 > sc.get("budget_s", 60):
                 break
         out.append({"scenario": sc, "runs": hist, "exhaustive": getattr(S.explore, "last_exhaustive", False)})
-    json.dump({"eliot_file": eliot.__file__, "results": out}, open(sys.argv[2], "w"))
+    with open(sys.argv[2], "w") as fh:
+        json.dump({"eliot_file": eliot.__file__, "results": out}, fh)
+    # threads the code under test leaked (a writer thread waiting for ever on a queue nobody feeds) must not keep this process alive
+    sys.stdout.flush()
+    sys.stderr.flush()
+    os._exit(0)
 
 
 if __name__ == "__main__":
